@@ -356,7 +356,7 @@ def costs_C16(ctx, rule_a, rule_c):
             if e[0] == "binop" and e[1] == "Eq" and bt[1] == bi:
                 ta = dist_char_operand(ctx, dist, t)
                 good = ta
-        key = "zero-cost:%s" % S.show(sy.place(st["place"]), dist)
+        key = "zero-cost:%s" % S.show(sy.dest(st["place"]), dist)
         if good:
             zero_ok += 1
             ctx.ok(rule_a, key, where(dist, bi, st), "zero cost is assigned only on the branch where the two "
